@@ -89,7 +89,7 @@ CHECKS["C04"] = (True, TV, "translation validation per program over an exhaustiv
     "matrix + - * for 3x3 and 4x4, constant and dynamic v[i], m[i], m[i][j], every swizzle read mask of length 1-4 over both letter sets, every non-repeating swizzle write mask, element and row "
     "writes with constant and dynamic index, copies followed by writes to the copy or the source. Each member is compiled by the real front end and run on the real VM with all components "
     "symbolic; z3 decides per joint path that every component of the result equals the reference interpreter's.",
-    "Trusts z3, the proxy model (floats as reals), the reference interpreter. uint vectors and non-square matrices outside; matrix*vector and scalar*matrix are recorded known findings.", "DESIGN.md 5 (C04)")
+    "Trusts z3, the proxy model (floats as reals), the reference interpreter. uint vectors and non-square matrices outside.", "DESIGN.md 5 (C04)")
 
 CHECKS["C02"] = (True, TV, "differential translation validation: unoptimised vs optimised build of the same source on the real VM with symbolic arguments and globals (symx + z3); accept/reject compared concretely",
     "Every member of F2 (a store followed by a load of the same variable in every consumer position - operand, branch predicate, member access, index, call argument, return, cast, constructor, "
